@@ -63,6 +63,8 @@ type teSpan struct {
 	Dur   int64  `json:"dur"`
 	T     int64  `json:"t"` // ms offset
 	State int64  `json:"state"`
+	// Labels: a string-array tag (nil = null); values may contain the array codec's separator and escape bytes
+	Labels []string `json:"labels,omitempty"`
 }
 
 func teTraceID(n int) string { return fmt.Sprintf("trace-%03d", n) }
@@ -102,6 +104,7 @@ func teSchema() *databasev1.Trace {
 			{Name: "trace_id", Type: databasev1.TagType_TAG_TYPE_STRING}, {Name: "state", Type: databasev1.TagType_TAG_TYPE_INT},
 			{Name: "service_id", Type: databasev1.TagType_TAG_TYPE_STRING}, {Name: "duration", Type: databasev1.TagType_TAG_TYPE_INT},
 			{Name: "span_id", Type: databasev1.TagType_TAG_TYPE_STRING}, {Name: "timestamp", Type: databasev1.TagType_TAG_TYPE_TIMESTAMP},
+			{Name: "labels", Type: databasev1.TagType_TAG_TYPE_STRING_ARRAY},
 		},
 		TraceIdTagName: "trace_id", SpanIdTagName: "span_id", TimestampTagName: "timestamp",
 	}
@@ -219,6 +222,13 @@ func teStrTV(s string) *modelv1.TagValue {
 	return &modelv1.TagValue{Value: &modelv1.TagValue_Str{Str: &modelv1.Str{Value: s}}}
 }
 
+func teLabelsTV(l []string) *modelv1.TagValue {
+	if l == nil {
+		return &modelv1.TagValue{Value: &modelv1.TagValue_Null{}}
+	}
+	return &modelv1.TagValue{Value: &modelv1.TagValue_StrArray{StrArray: &modelv1.StrArray{Value: l}}}
+}
+
 func teIntTV(i int64) *modelv1.TagValue {
 	return &modelv1.TagValue{Value: &modelv1.TagValue_Int{Int: &modelv1.Int{Value: i}}}
 }
@@ -234,6 +244,7 @@ func (e *teEnv) write(batch []teSpan) {
 			Tags: []*modelv1.TagValue{
 				teStrTV(s.traceID()), teIntTV(s.State), teStrTV(teSvc(s.Svc)), teIntTV(s.Dur), teStrTV(fmt.Sprintf("span-%d", s.ID)),
 				{Value: &modelv1.TagValue_Timestamp{Timestamp: timestamppb.New(time.Unix(0, teTS(s.T)))}},
+				teLabelsTV(s.Labels),
 			},
 			Span: s.body(), Version: e.msgID,
 		}
@@ -358,7 +369,7 @@ func (q teQuery) request() *tracev1.QueryRequest {
 		Groups: []string{teGroup}, Name: teName,
 		TimeRange: &modelv1.TimeRange{Begin: timestamppb.New(time.Unix(0, teTS(0))), End: timestamppb.New(time.Unix(0, teTS(3*3600*1000)))},
 		Offset:    uint32(q.Offset), Limit: uint32(q.Limit),
-		TagProjection: []string{"trace_id", "span_id", "service_id", "duration", "state"},
+		TagProjection: []string{"trace_id", "span_id", "service_id", "duration", "state", "labels"},
 	}
 	if q.Order == "duration" {
 		srt := modelv1.Sort_SORT_ASC
@@ -455,6 +466,8 @@ func (e *teEnv) query(q teQuery) (out []teOutTrace, err error) {
 						tags = append(tags, tg.Name+"="+v.Str.GetValue())
 					case *modelv1.TagValue_Int:
 						tags = append(tags, fmt.Sprintf("%s=%d", tg.Name, v.Int.GetValue()))
+					case *modelv1.TagValue_StrArray:
+						tags = append(tags, fmt.Sprintf("%s=%q", tg.Name, v.StrArray.GetValue()))
 					default:
 						tags = append(tags, tg.Name+"=null")
 					}
@@ -470,7 +483,11 @@ func (e *teEnv) query(q teQuery) (out []teOutTrace, err error) {
 }
 
 func (s teSpan) rendered() string {
-	return fmt.Sprintf("span-%d|%s|duration=%d,service_id=%s,state=%d", s.ID, teRenderBody(s.body()), s.Dur, teSvc(s.Svc), s.State)
+	labels := "labels=null"
+	if s.Labels != nil {
+		labels = fmt.Sprintf("labels=%q", s.Labels)
+	}
+	return fmt.Sprintf("span-%d|%s|duration=%d,%s,service_id=%s,state=%d", s.ID, teRenderBody(s.body()), s.Dur, labels, teSvc(s.Svc), s.State)
 }
 
 // ---- case and check ----
@@ -708,8 +725,11 @@ func genTeCase(t *rapid.T, _ *verifkit.KnownSet) teCase {
 			if _, ok := durOf[[2]int{tr, svc}]; !ok {
 				durOf[[2]int{tr, svc}] = int64(rapid.IntRange(0, 50).Draw(t, "dur"))
 			}
-			spans = append(spans, teSpan{Trace: tr, ID: id, Svc: svc, Dur: durOf[[2]int{tr, svc}],
-				T: int64(rapid.IntRange(0, 5000).Draw(t, "t")), State: int64(rapid.IntRange(0, 1).Draw(t, "state"))})
+			sp := teSpan{Trace: tr, ID: id, Svc: svc, Dur: durOf[[2]int{tr, svc}],
+				T: int64(rapid.IntRange(0, 5000).Draw(t, "t")), State: int64(rapid.IntRange(0, 1).Draw(t, "state"))}
+			// few distinct arrays, repeated inside a trace (a dictionary-encoded column), elements with the codec's special bytes
+			sp.Labels = rapid.SampledFrom([][]string{nil, {"a"}, {"a|b", "c"}, {"a|b", "c"}, {"x\\y"}, {"p", "q", "r"}}).Draw(t, "labels")
+			spans = append(spans, sp)
 		}
 		c.Ops = append(c.Ops, teOp{Kind: "write", Spans: spans})
 		switch rapid.IntRange(0, 4).Draw(t, "maint") {
